@@ -143,5 +143,6 @@ def emit_tla(name, plan, expect):
 
 def cfg_text(gather="positional", ctx="copy", invariants=("Assoc", "OwnContext", "TypeOK"), props=("NoLostOrDoubleStart",)):
     view = "VIEW ViewWithoutOrder\n" if gather == "positional" else ""
-    return (f"CONSTANTS\n Plan <- MCPlan\n Expect <- MCExpect\n GatherMode = \"{gather}\"\n CtxMode = \"{ctx}\"\nINIT MCInit\nNEXT MCNext\n{view}"
-            + "".join(f"INVARIANT {i}\n" for i in invariants) + "".join(f"PROPERTY {p}\n" for p in props) + "CHECK_DEADLOCK FALSE\n")
+    live = "PROPERTY Termination\n" if props else ""
+    return (f"CONSTANTS\n Plan <- MCPlan\n Expect <- MCExpect\n GatherMode = \"{gather}\"\n CtxMode = \"{ctx}\"\nSPECIFICATION FairSpec\n{view}"
+            + "".join(f"INVARIANT {i}\n" for i in invariants) + "".join(f"PROPERTY {p}\n" for p in props) + live + "CHECK_DEADLOCK FALSE\n")
